@@ -22,6 +22,7 @@ outbound::TimeoutLayer(config.outbound_request_timeout()) in both branches of th
 that the layer reaches every Peer and that Peer::call applies it on every call with do_rpc only
 reachable through it.
 Every user of try_parse_timeout absorbs its error (an unparsable header is 'absent', never a failed request); Config accessors are pure projections of their own field.
+Outbound streams are opened by do_rpc only, i.e. under the layer stack and hence under the deadline.
 """
 TRUSTED = ["tokio::time::sleep fires no earlier than its duration", "tower ServiceBuilder/Stack layer order (first added = outermost)",
            "str::parse::<u64> rejects non-numeric and overflowing input"]
@@ -619,6 +620,10 @@ def run(cx):
         # Peer::call: layered service called with the request; do_rpc only inside the closure given to service_fn
         cb = cx.impl_method("anemo::network::peer::Peer", "Service", "call")
         co = Origins(cb)
+        # everything an outbound request waits for is waited for *inside* the layered service (hence under the deadline):
+        # streams are opened by do_rpc only - waiting for stream credit outside the layer stack would not be covered
+        check_callers(ob, prog, "anemo::connection::Connection::open_bi", ["anemo::network::peer::Peer::do_rpc"], crates=["anemo"], floor=1,
+                      what="Connection::open_bi (outbound stream; must be opened under the request's deadline)", key="peer-call/stream-opened-under-deadline")
         lay = [c for c in cb.calls() if name_matches(c.fn, "tower_layer::Layer::layer") and not cb.is_cleanup(c.bb)]
         ob.floor(lay, 1, "Layer::layer in Peer::call", exact=True)
         ob.require(mentions_field(arg_origin(lay[0], 0, co), "outbound_request_layer"), "peer-call/layer", "Peer::call does not apply self.outbound_request_layer", cb.path)
